@@ -127,8 +127,30 @@ pub fn finish_components<C: ServerContext>(d: &mut OpenApiDoc)
     ensures doc_ops::<C>(*final(d)) == doc_ops::<C>(*old(d))
 { unimplemented!() }
 /// openapiv3::Operation / openapiv3::PathItem: the eight operation slots of a path item (other fields not modelled)
+pub struct Operation {
+    pub tags: Vec<String>, pub summary: Option<String>, pub description: Option<String>, pub operation_id: Option<String>,
+    pub deprecated: bool, pub rest: OperationRest,
+}
+/// the other fields of openapiv3::Operation (parameters, request body, responses, ...): not modelled
 #[verifier::external_body]
-pub struct Operation { _p: u8 }
+pub struct OperationRest { _p: u8 }
+pub uninterp spec fn default_rest() -> OperationRest;
+impl Default for Operation {
+    #[verifier::external_body]
+    fn default() -> (r: Operation)
+        ensures r.tags@.len() == 0, r.summary is None, r.description is None, r.operation_id is None, !r.deprecated, r.rest == default_rest()
+    { unimplemented!() }
+}
+/// Clone::clone_from: afterwards the target equals the source (a clone equals its original)
+pub trait CloneFromExt { fn clone_from_(&mut self, src: &Self); }
+impl CloneFromExt for Option<String> {
+    #[verifier::external_body]
+    fn clone_from_(&mut self, src: &Self) ensures *final(self) == *src { unimplemented!() }
+}
+impl CloneFromExt for Vec<String> {
+    #[verifier::external_body]
+    fn clone_from_(&mut self, src: &Self) ensures *final(self) == *src { unimplemented!() }
+}
 pub struct PathItem {
     pub get: Option<Operation>, pub put: Option<Operation>, pub post: Option<Operation>, pub delete: Option<Operation>,
     pub options: Option<Operation>, pub head: Option<Operation>, pub patch: Option<Operation>, pub trace: Option<Operation>,
